@@ -27,6 +27,7 @@ func NewTransactionManager(r RollbackInterface) *TransactionManager {
 }
 
 func (t *TransactionManager) RegisterTransaction(ctx context.Context, trans *Transaction) (*TransactionGuard, error) {
+	verifYield("tm.register")
 	t.tmMutex.Lock()
 	defer t.tmMutex.Unlock()
 	if t.transactionOngoing() {
@@ -58,6 +59,7 @@ func (t *TransactionManager) CleanupTransaction(id string) error {
 }
 
 func (t *TransactionManager) Confirm(id string) error {
+	verifYield("tm.confirm")
 	t.tmMutex.Lock()
 	defer t.tmMutex.Unlock()
 	if t.transaction == nil {
@@ -71,6 +73,7 @@ func (t *TransactionManager) Confirm(id string) error {
 }
 
 func (t *TransactionManager) Cancel(ctx context.Context, id string) error {
+	verifYield("tm.cancel")
 	t.tmMutex.Lock()
 	defer t.tmMutex.Unlock()
 	if t.transaction == nil {
@@ -96,6 +99,7 @@ func (t *TransactionManager) GetTransaction(id string) (*Transaction, error) {
 }
 
 func (t *TransactionManager) Rollback(ctx context.Context, trans *Transaction) error {
+	verifYield("tm.rollback")
 	t.tmMutex.Lock()
 	defer t.tmMutex.Unlock()
 	_, err := t.rollbacker.TransactionRollback(ctx, trans, false)
